@@ -29,11 +29,19 @@ EVENTS = {"std-large": ("standard", "2.5MiB"), "std-small": ("standard", "0.5MiB
           "web-large": ("web", "2.5MiB"), "web-small": ("web", "0.5MiB")}
 
 
-def _program(nbytes: int):
+def _program(nbytes: int, where: str = "top"):
     import jax.numpy as jnp
+    from jax import lax
     n = nbytes // 4
     w = ((np.arange(n, dtype=np.int64) * 2654435761) % 1000003).astype(np.float32) / 7.0  # deterministic, non-trivial bytes
     small = np.arange(5, dtype=np.int32)
+
+    if where == "loop":
+        # the large parameter lives ONLY inside a control-flow body
+        def fn(x):
+            y = lax.fori_loop(0, 2, lambda i, c: c * jnp.asarray(w) * 0.001 + 1.0, x)
+            return y, jnp.sum(x[:5] * jnp.asarray(small))
+        return fn, [(n,)], w
 
     def fn(x):
         return x * jnp.asarray(w) + 1.0, jnp.sum(x[:5] * jnp.asarray(small))
@@ -83,7 +91,19 @@ def _compare_loaded(path: str, ref_model, x, ref_out, expect_mode: str, nbytes: 
     import onnx
     problems: List[str] = []
     raw = onnx.load(path, load_external_data=False)
-    ext = [t.name for t in raw.graph.initializer if t.data_location == onnx.TensorProto.EXTERNAL]
+    def _all_tensors(g):
+        for t in g.initializer:
+            yield t
+        for nd in g.node:
+            for a in nd.attribute:
+                if a.type == onnx.AttributeProto.TENSOR:
+                    yield a.t
+                elif a.type == onnx.AttributeProto.GRAPH:
+                    yield from _all_tensors(a.g)
+                elif a.type == onnx.AttributeProto.GRAPHS:
+                    for sg in a.graphs:
+                        yield from _all_tensors(sg)
+    ext = [t.name for t in _all_tensors(raw.graph) if t.data_location == onnx.TensorProto.EXTERNAL]
     big = [t.name for t in ref_model.graph.initializer if len(t.raw_data) >= MIB]
     if expect_mode == "web":
         if ext:
@@ -129,14 +149,15 @@ def _compare_loaded(path: str, ref_model, x, ref_out, expect_mode: str, nbytes: 
 _REF: Dict[str, Any] = {}
 
 
-def _reference(size_name: str):
+def _reference(size_name: str, where: str = "top"):
     from jax2onnx import to_onnx
-    if size_name not in _REF:
-        fn, specs, w = _program(SIZES[size_name])
+    key = size_name + "|" + where
+    if key not in _REF:
+        fn, specs, w = _program(SIZES[size_name], where)
         m = to_onnx(fn, specs, return_mode="proto")
         x = (np.arange(specs[0][0], dtype=np.float32) % 17) - 8.0
-        _REF[size_name] = (fn, specs, m, x, _run(m, x))
-    return _REF[size_name]
+        _REF[key] = (fn, specs, m, x, _run(m, x))
+    return _REF[key]
 
 
 def job_modes(p: Dict[str, Any]) -> Dict[str, Any]:
@@ -144,7 +165,8 @@ def job_modes(p: Dict[str, Any]) -> Dict[str, Any]:
     import onnx_ir as ir
     from jax2onnx import to_onnx
     size_name = p["size"]
-    fn, specs, ref, x, ref_out = _reference(size_name)
+    where = p.get("where", "top")
+    fn, specs, ref, x, ref_out = _reference(size_name, where)
     d = scratch_dir("c15m")
     problems: List[str] = []
     states = []
@@ -155,12 +177,13 @@ def job_modes(p: Dict[str, Any]) -> Dict[str, Any]:
             problems.append("ir mode (converted to protobuf) differs from proto mode")
         if ref.SerializeToString(deterministic=True) != to_onnx(fn, specs, return_mode="proto").SerializeToString(deterministic=True):
             problems.append("proto mode is not reproducible")
-        for mode in ("standard", "web"):
-            path = os.path.join(d, f"m_{mode}.onnx")
-            ret = to_onnx(fn, specs, return_mode="file", output_path=path, export_mode=mode)
+        # every accepted spelling of a mode must behave like the canonical one
+        for spelled, mode in (("standard", "standard"), ("web", "web"), ("Web", "web"), (" WEB ", "web"), ("STANDARD", "standard")):
+            path = os.path.join(d, f"m_{mode}_{len(spelled)}{spelled.strip()[:1]}.onnx")
+            ret = to_onnx(fn, specs, return_mode="file" if spelled != "Web" else "FILE", output_path=path, export_mode=spelled)
             if ret != path:
                 problems.append(f"file mode returned {ret!r} instead of the requested path")
-            problems += [f"{mode}: {q}" for q in _compare_loaded(path, ref, x, ref_out, mode, SIZES[size_name])]
+            problems += [f"{mode} (spelled {spelled!r}): {q}" for q in _compare_loaded(path, ref, x, ref_out, mode, SIZES[size_name])]
             states.append(str(_file_state(path)))
     except Exception as e:  # noqa: BLE001
         problems.append(f"export raised {type(e).__name__}: {str(e)[:200]}")
@@ -210,7 +233,7 @@ def main(tier: str) -> int:
     if tier == "thorough":
         hist += [list(h) for h in itertools.product(EVENTS, repeat=4)]
     with Pool(init=("checks.c15", "_warm"), job_timeout=400) as pool:
-        for _i, p, r in pool.imap("checks.c15", "job_modes", [{"size": s} for s in SIZES]):
+        for _i, p, r in pool.imap("checks.c15", "job_modes", [{"size": s, "where": w} for s in SIZES for w in ("top", "loop")]):
             run.add("evaluations")
             if is_worker_failure(r):
                 run.harness_error(f"modes {p}: {r.get('_worker')} {r.get('msg', '')[:150]}")
@@ -218,11 +241,12 @@ def main(tier: str) -> int:
             run.add("transitions", 5)
             run.add("traces_validated_against_impl", 5)
             for s in r["states"]:
-                run.state(p["size"] + "|" + s)
-            run.nontrivial("modes|" + p["size"])
+                run.state(p["size"] + "|" + p["where"] + "|" + s)
+            run.nontrivial("modes|" + p["size"] + "|" + p["where"])
             for q in r["problems"]:
-                run.violation(f"modes|{p['size']}|{q.split(':')[0][:60]}", q, {"kind": "modes", "case": p})
-            run.sample({"size": p["size"], "file_states": r["states"]})
+                run.violation(f"modes|{p['size']}|{p['where']}|{q.split(':')[0][:60]}", q, {"kind": "modes", "case": p})
+            if len(run.cov["samples"]) < 4:
+                run.sample({"size": p["size"], "parameter_lives_in": p["where"], "file_states": r["states"]})
         for _i, p, r in pool.imap("checks.c15", "job_history", [{"history": h} for h in hist]):
             run.add("evaluations")
             if is_worker_failure(r):
